@@ -150,6 +150,16 @@ check("C06", "exploration",
       "Trusted: C, N from geometry; R, D from space.evaluate at element vertices (validated by C09); V0, V1 are the library's own single-layer matrices.",
       "exhaustive sweep against algebraic decompositions built from reference sparse maps")
 
+check("C05", "exploration",
+      "Exhaustive lattice: mesh x scalar space pair x polar lattice of wavenumbers (|k|D in {1e-3,1e-2,1e-1,1} x up to 8 arguments incl. "
+      "real, imaginary, complex) x order pairs for the three entrywise bounds (hard inequalities that hold for the discrete sums); "
+      "omega lattice x all four boundary operators and both potentials for Helmholtz(i w) = modified(w) and the vanishing-real-part "
+      "limit; k -> -conj(k) conjugates; symmetry of V, W and K'=K^T: regular parts to rounding, whole matrices along a singular-order ladder.",
+      "DESIGN.md 4/C05",
+      "Trusted: the elementary inequalities |e^z-1-z|<=|z|^2 and sum (n-1)|z|^n/n! <= |z|^2 for |z|<=1; positivity/interiority of the "
+      "rules used is asserted on every run.",
+      "exhaustive lattice sweep against entrywise inequalities and exact identities")
+
 ALL = ["C%02d" % i for i in range(1, 21)]
 
 
